@@ -1428,8 +1428,19 @@ impl Lair {
                 3 => format!("{user} bond {denom} {x} -"),
                 4 => format!("{user} bond {denom} {x} {denom}:{}", x.wrapping_add(1).max(1)),
                 5 => format!("{user} bond {denom} 0 {denom}:0"),
-                6 => format!("{user} bond @token {x} {denom}:{x}"),
-                7 => format!("{user} unbond @token {x}"),
+                // a cw20 `Token` asset; two times in three its address SPELLS a whitelisted denom and the matching
+                // native coins are attached (seed C08-N: string comparison of asset ids instead of the asset kind)
+                6 => {
+                    let t = if rng.chance(2, 3) { denom.clone() } else { "token".to_string() };
+                    let d2 = if rng.chance(1, 4) { c.denoms[rng.below(c.denoms.len() as u64) as usize].clone() } else { denom.clone() };
+                    format!("{user} bond @{t} {x} {d2}:{x}")
+                }
+                7 => {
+                    let t = if rng.chance(2, 3) { denom.clone() } else { "token".to_string() };
+                    let have = bonded_of(&self.prev, &user, &denom);
+                    let y = if have > 0 && rng.chance(1, 2) { have.min(x).max(1) } else { x };
+                    format!("{user} unbond @{t} {y}")
+                }
                 8 => format!("{user} unbond {other} {x}"),
                 9 => format!("{user} withdraw {other}"),
                 10 => format!("{user} unbond {denom} 0"),
